@@ -131,6 +131,7 @@ func devMain(args []string) int {
 	unwind := fs.Int("unwind", 0, "loop bound")
 	maxPaths := fs.Int("paths", 0, "max paths")
 	seg := fs.Bool("seg", false, "symbolic TCP segmentation")
+	segcuts := fs.Int("segcuts", 0, "max short reads per connection (0 = unlimited)")
 	replay := fs.Bool("replay", false, "replay violations natively")
 	slog := fs.String("solverlog", "", "solver log prefix")
 	timeout := fs.Int("timeout", 30000, "solver timeout ms")
@@ -155,6 +156,7 @@ func devMain(args []string) int {
 	}
 	fmt.Fprintf(os.Stderr, "loaded in %v\n", time.Since(t0))
 	p.Segmentation = *seg
+	p.SegCuts = *segcuts
 	p.MapOrderPerm = *perm
 	if *symlen > 0 {
 		p.MaxSymLen = *symlen
